@@ -675,7 +675,7 @@ class Unit:
             for (frm, to, expect, where) in rewrites:
                 if where == "pre":
                     pre_body = apply_literal_rewrite(pre_body, frm, to, expect, self.counts, path)
-            new_body = rewrite_builtin(pre_body, self.counts, mutable=(mutself or any(o.startswith("mutarg=") for o in opts)))
+            new_body = rewrite_builtin(pre_body, self.counts, mutable=(mutself or "mutlocks" in opts or any(o.startswith("mutarg=") for o in opts)))
             for (frm, to, expect, where) in rewrites:
                 if where in ("sig", "pre"): continue
                 if where == "unit":
